@@ -2,8 +2,10 @@
 """Regenerate MANIFEST.json from tools/manifest_data.py (keeps it valid at all times)."""
 import json, os, sys
 here = os.path.dirname(os.path.abspath(__file__))
-sys.path.insert(0, here)
-import manifest_data as D
+import glob
+class D: pass
+D.CHECKS = {os.path.basename(f)[:-5]: json.load(open(f)) for f in sorted(glob.glob(os.path.join(here, "..", "manifest.d", "C*.json")))}
+D.NOT_APPLICABLE = json.load(open(os.path.join(here, "..", "manifest.d", "not_applicable.json")))
 props = [json.loads(l) for l in open(os.path.join(here, "..", "properties.jsonl"))]
 ids = [p["id"] for p in props]
 checks = []
@@ -45,3 +47,9 @@ m = {
 }
 json.dump(m, open(os.path.join(here, "..", "MANIFEST.json"), "w"), indent=1)
 print("checks:", [c["property_id"] for c in checks], "not_applicable:", len(na))
+# readable concatenation of the per-property finding files
+fl, fs = [], []
+for f in sorted(glob.glob(os.path.join(here, "..", "findings.d", "C*.json"))):
+    d = json.load(open(f)); fl += d.get("fixed_log", []); fs += d.get("findings", [])
+json.dump({"comment": "GENERATED from findings.d/*.json by tools/mkmanifest.py (the checks read findings.d directly). Genuine defects of the pinned dask/fastparquet tree (DESIGN.md section 7). 'open' entries are reported as KNOWN-FINDING and suppress only failing cases whose classification matches 'signature'; 'fixed: <commit>' entries suppress nothing.",
+           "fixed_log": fl, "findings": fs}, open(os.path.join(here, "..", "known_findings.json"), "w"), indent=1)
